@@ -15,6 +15,28 @@ VERIF = Path(__file__).resolve().parent.parent
 CURRENT_DRIFT: Dict[str, Optional[int]] = {}
 CURRENT_DELETION_ONLY: set = set()
 SHAPE_DRIFT_MAX = 1
+ARMED_FILE = Path(__file__).resolve().parent / "armed_sites.json"
+_ARMED = None
+
+
+def armed_sites():
+    """Report sites (rr.bad calls) that have caught a confirmed violating change inside a function that was restructured at the same time (tools/gen_armed.py,
+    from the seeded and hand-made corpora).  Every other rr.bad site encodes a reading of the function as it was and, like bad_shape, is only entitled to a
+    verdict while the function keeps its statement skeleton.  False (policy off) when the file is missing or NV_ARM_ALL=1."""
+    global _ARMED
+    if _ARMED is None:
+        if os.environ.get("NV_ARM_ALL") == "1" or not ARMED_FILE.exists():
+            _ARMED = False
+        else:
+            _ARMED = set(json.loads(ARMED_FILE.read_text()).get("sites", []))
+    return _ARMED
+
+
+def _frame_key(f) -> str:
+    import linecache
+    import zlib
+    line = linecache.getline(f.f_code.co_filename, f.f_lineno).strip()
+    return f"{os.path.basename(f.f_code.co_filename)}:{f.f_code.co_name}:{zlib.crc32(line.encode()) & 0xffffffff:08x}"
 
 
 @dataclass
@@ -28,6 +50,7 @@ class Finding:
     path: Optional[List[str]] = None  # for path rules: entry ... offending exit
     drift: Optional[int] = None  # statement-skeleton distance of the anchored function from the reference tree (None: new function / module-level)
     site: str = ""  # where in /verif/nv/rules the report is made (diagnostics for the checker's own corpus statistics)
+    site_key: str = ""  # the same, independent of line numbers: rule file, rule function, checksum of the reporting statement's first line
 
     def key(self) -> str:
         return f"{self.rule}|{self.func}|{' '.join(self.construct.split())}"
@@ -89,9 +112,23 @@ class RuleResult:
         else:
             file, func = str(fi), str(fi)
         cons = construct if construct is not None else short(node, 160)
+        import inspect
+        caller = inspect.currentframe().f_back
+        via_shape = caller.f_code.co_name == "bad_shape"
+        if via_shape:
+            caller = caller.f_back
+        skey = _frame_key(caller)
+        armed = armed_sites()
+        if not via_shape and armed is not False and isinstance(fi, FuncInfo) and skey not in armed:
+            d = CURRENT_DRIFT.get(func) if func in CURRENT_DRIFT else None
+            if (d is None or d > SHAPE_DRIFT_MAX) and func not in CURRENT_DELETION_ONLY:
+                # the function was restructured (or is new) and this report has never been seen to survive a restructuring: undecided, like bad_shape
+                self.shape(fi, node, message + f" [function restructured: skeleton distance {d}; this report is only trusted while the function keeps its shape]", construct, path)
+                self.shape_sites[-1] = f"{os.path.basename(caller.f_code.co_filename)}:{caller.f_lineno}"
+                return
         self.instances.append(f"{func}: {cons} -> VIOLATED")
         self.findings.append(
-            Finding(self.rule, file, func, cons, message, getattr(node, "lineno", None), path, CURRENT_DRIFT.get(func), self._site())
+            Finding(self.rule, file, func, cons, message, getattr(node, "lineno", None), path, CURRENT_DRIFT.get(func), self._site(), skey)
         )
 
     def bad_shape(self, fi, node, message: str, construct: Optional[str] = None, path=None):
